@@ -16,6 +16,9 @@ CHECKS = {
  "C03": ("exploration", "runtime monitor with secret-key observation: every encryption/key component is decrypted by the harness and its exact centred error vector is compared with worst-case upper and statistical lower bounds",
          "Accepted rlwe literals (both ring types, 1..4 Q / 0..2 P primes of mixed sizes, 8 secret and 5 error distributions) x every level x sk/pk x encryptor variants (ShallowCopy, WithKey, WithPRNG) x degree 0/1/2 x IsNTT x IsMontgomery: metadata equality, exact noise vector vs worst-case bound, pooled std in [nominal/2, 2 nominal], distinct errors/ciphertexts on re-encryption, unreadability under an independent key; every component of public, relinearisation, Galois and generic evaluation keys (incl. compressed+Expand, all (LevelQ, LevelP), power-of-two digits) is checked to be an encryption of exactly its gadget payload with error <= the truncation bound.",
          "ring arithmetic used for c0+c1*s is trusted from C01; lower bounds only see >2x deviations of sigma; Element[ringqp.Poly] targets are observed through key generation only", "4/C03"),
+ "C04": ("exploration", "runtime monitor with secret-key observation: after every key-switching entry point the phase under the target key is compared with the exactly transformed plaintext against a worst-case decomposition-derived noise bound",
+         "Parameter sets with 1..6 Q and 0..3 P primes of mixed sizes, both ring types, 5 secret distributions; evaluation-key parameters (LevelQ, LevelP, w in 0..30, Compressed) drawn per case; ApplyEvaluationKey, Relinearize, Automorphism, AutomorphismHoisted(Lazy), GadgetProduct, GadgetProductLazy, GadgetProductHoisted(Lazy)+ModDown on ciphertexts at levels <= key level, NTT and coefficient domain; compressed keys: Expand determinism and equality with the keyed uniform stream; missing keys must give errors. Not yet covered: ring-degree switching, standard/conjugate-invariant swap, RingPackingEvaluator.",
+         "worst-case bounds are loose by design (no false alarm possible from noise); only defects that push noise towards Q_level are visible", "4/C04"),
 }
 ALL = [f"C{i:02d}" for i in range(1, 21)]
 PENDING_REASON = "monitor not built yet in this session (planned in DESIGN.md section 4); nothing is claimed for it"
